@@ -108,17 +108,8 @@ Reached(t, viaExec) ==
 
 MatRows(n) == Den(n, Env)
 
-\* open finding F8: a SQL materialization whose upstream tree is rebuilt by
-\* process() (it contains a transfer, or a chain with a statically empty branch)
-RECURSIVE Rebuilt(_)
-Rebuilt(t) ==
-    CASE t.k = "leaf" -> FALSE
-      [] t.k = "un"   -> Rebuilt(t.t)
-      [] t.k = "bin"  -> Rebuilt(t.l) \/ Rebuilt(t.r) \/ (t.op.o = "chain" /\ (MaxR(t.l) = 0 \/ MaxR(t.r) = 0))
-      [] t.k = "xfer" -> TRUE
-      [] t.k = "mat"  -> Rebuilt(t.t)
-      [] t.k = "sel"  -> Rebuilt(t.skip)
-KF8(t) == \E n \in MatNodes(t) : KindOf(Eng(n)) = "sql" /\ Rebuilt(n.t)
+\* open findings F8 / F16: see RA_Proc!KF8Tree
+KF8(t) == KF8Tree(t)
 
 SetPays(nodes) ==
     /\ pay' = [m \in MatNames |-> IF \E n \in nodes : n.name = m
